@@ -388,6 +388,7 @@ REG["numpy.pi"] = T.PI
 REG["math.pi"] = T.PI
 REG["numpy.inf"] = T.INF
 REG["math.inf"] = T.INF
+REG["numpy.nan"] = Opaque("nan")     # not a real number: usable as a returned marker only (arithmetic on it is unsupported)
 REG["numpy.newaxis"] = None
 for _t in ("ndarray", "float64", "int64", "float32", "int32", "bool_", "datetime64", "timedelta64", "complex64", "complex128"):
     if "numpy." + _t not in REG:
